@@ -74,7 +74,7 @@ impl Prop for C07 {
             v.push(format!("fixings:{}", f));
         }
         v.push("fed-vs-nyc".into());
-        for c in ["restored:json", "restored:pickle-state", "via-NamedCal", "in-comma-list", "python-layer:get_calendar_by_name", "python-layer:views-of-the-built-in-calendar"] {
+        for c in ["restored:json", "restored:pickle-state", "via-NamedCal", "in-comma-list", "python-layer:get_calendar_by_name", "python-layer:views-of-the-built-in-calendar", "range-with-holiday-start", "range-with-holiday-end"] {
             v.push(c.to_string());
         }
         v.push("fixings:other-forms-of-the-calendar".to_string());
@@ -84,7 +84,7 @@ impl Prop for C07 {
         800_000
     }
     fn rule(&self) -> String {
-        "Exhaustive: every date 1970-01-01..2200-12-31 of the 9 fully specified calendars (tgt nyc fed ldn stk osl zur all bus) compared with the hand-transcribed rule engine; fed compared with nyc minus Good Friday; every documented fixed-date / Easter-linked holiday of tro tyo syd wlg mum; all 14 documented names, each also as a Python user sees it (the object from the Python get_calendar_by_name, NamedCal(name) and a one-member UnionCal through the Python-facing holidays / week_mask / is_bus_day / is_non_bus_day on every date and bus_date_range over the whole span); the 9 fixing files. A case is non-trivial and distinct per (calendar, date) on which the table or the rules place a holiday, or per fixing-file date.".into()
+        "Exhaustive: every date 1970-01-01..2200-12-31 of the 9 fully specified calendars (tgt nyc fed ldn stk osl zur all bus) compared with the hand-transcribed rule engine; fed compared with nyc minus Good Friday; every documented fixed-date / Easter-linked holiday of tro tyo syd wlg mum; all 14 documented names, each also as a Python user sees it (the object from the Python get_calendar_by_name, NamedCal(name) and a one-member UnionCal through the Python-facing holidays / week_mask / is_bus_day / is_non_bus_day on every date and bus_date_range over the whole span; ranges that start or end on one of its holidays are refused or list exactly the business days); the 9 fixing files. A case is non-trivial and distinct per (calendar, date) on which the table or the rules place a holiday, or per fixing-file date.".into()
     }
     fn assumptions(&self) -> Vec<String> {
         vec![
@@ -365,6 +365,35 @@ impl Prop for C07 {
                     view!("Cal", pyc);
                     view!("NamedCal", pyn);
                     view!("UnionCal", pyu);
+                    // a range that starts or ends ON a holiday of the calendar (every 25th weekday holiday of the span):
+                    // refused, or exactly the business days of the range - a holiday is never listed as a business day
+                    let hol: Vec<i64> = (z_lo..=z_hi - 40).filter(|z| cal.is_weekday(&to_ndt(*z)) && cal.is_holiday(&to_ndt(*z))).collect();
+                    for h in hol.iter().step_by(25) {
+                        let nb = match (h + 8..h + 40).find(|z| cal.is_bus_day(&to_ndt(*z))) {
+                            Some(z) => z,
+                            None => continue,
+                        };
+                        let pb = match (h - 40..h - 8).rev().find(|z| *z >= z_lo && cal.is_bus_day(&to_ndt(*z))) {
+                            Some(z) => z,
+                            None => continue,
+                        };
+                        for (label, a, b) in [("holiday-start", *h, nb), ("holiday-end", pb, *h)] {
+                            ctx.class(&format!("range-with-{}", label));
+                            ctx.eval(2);
+                            ctx.asserted(2);
+                            let want: Vec<i64> = (a..=b).filter(|z| cal.is_bus_day(&to_ndt(*z))).collect();
+                            let core: Option<Vec<i64>> = cal.bus_date_range(&to_ndt(a), &to_ndt(b)).ok().map(|v| v.iter().map(crate::calmodel::from_ndt).collect());
+                            let py: Option<Vec<i64>> = pyn.as_ref().and_then(|o| o.verif_py_bus_date_range(to_ndt(a), to_ndt(b)).ok()).map(|v| v.iter().map(crate::calmodel::from_ndt).collect());
+                            for (route, got) in [("core", core), ("python-layer NamedCal", py)] {
+                                if let Some(g) = got {
+                                    if g != want {
+                                        ctx.violation(&format!("C07|range-with-{}|holiday-listed-as-business-day", label), json!({"name": name, "route": route, "start": fmt_z(a), "end": fmt_z(b), "holiday": fmt_z(*h), "n_listed": g.len(), "n_business_days": want.len(), "holiday_listed": g.contains(h)}));
+                                        return;
+                                    }
+                                }
+                            }
+                        }
+                    }
                 }
                 // a built-in calendar that has been saved and loaded again (JSON, pickle state) still reports the
                 // same holidays on every date 1970-2200; so does the calendar reached through a NamedCal
